@@ -304,7 +304,57 @@ def rule_H7(ctx) -> None:
         ctx.proved("H7", name, mod.loc(fn), f"{n} returning paths, all out of _value_map_")
 
 
+def rule_H8(ctx) -> None:
+    """enums are open on the JSON side as well: a number read from a dict / JSON is kept as it is or turned into a member
+    with the open lookup (try_value); the closed lookup `EnumClass(number)` raises for numbers the schema does not list -
+    in every position (singular, repeated, map value)"""
+    from ..absint import Interp
+    from .jsonrules import meta_aliases, fname_aliases
+    mod = ctx.repo.mod(M_INIT)
+    fn = mod.func("Message._from_dict_init")
+    ctx.analysed("Message._from_dict_init")
+    value = N("$jvalue")
+
+    def roles(it, depth):
+        if it[0] == "call" and it[1][0] == "a" and it[1][2] == "items" and depth == 0:
+            return [N("$key"), value]
+        return None
+
+    al = {**meta_aliases(), **fname_aliases()}
+    shapes = {
+        "singular": ({A(META, "proto_type"): "enum", A(META, "map_types"): None}, {("call", N("isinstance"), (value, N("list")), ()): False}),
+        "repeated": ({A(META, "proto_type"): "enum", A(META, "map_types"): None}, {("call", N("isinstance"), (value, N("list")), ()): True}),
+        "map-value": ({A(META, "proto_type"): "map", A(META, "map_types"): ("string", "enum")}, {}),
+    }
+    for shape, (b, extra) in shapes.items():
+        assume = {("op", "is", value, C(None)): False, ("op", "is", META, C(None)): False, **extra}
+        paths = Interp(mod, bindings=b, aliases=al, loop_roles=roles, assume=assume, fork_ifexp=True).run(fn)
+        ctx.count(len(paths))
+        closed = None
+        n = 0
+        for p in paths:
+            if p.outcome == "raise":
+                continue
+            n += 1
+            for e in p.events:
+                if e.kind != "call":
+                    continue
+                f = e.data[1]
+                # a direct call of the class looked up in cls_by_field: EnumClass(v)
+                if f[0] == "sub" and f[1][0] == "a" and f[1][2] == "cls_by_field" and e.data[2]:
+                    closed = closed or (show(e.data), e.line)
+        name = f"_from_dict_init:open-enum-lookup[{shape}]"
+        if not n:
+            ctx.inconclusive("H8", name, "no path", mod.loc(fn))
+        elif closed:
+            ctx.refuted("H8", name, closed[0][:80], f"{mod.rel}:{closed[1]}",
+                        f"an enum number read from a dict / JSON ({shape}) goes through the closed lookup {closed[0][:80]}: numbers the schema does not define raise ValueError, although "
+                        "proto3 enums are open and the binary side accepts them", "M.from_dict({'levels': {'a': 7}}) for map<string, Level> with no member 7")
+        else:
+            ctx.proved("H8", name, mod.loc(fn), f"{n} paths, no closed lookup")
+
+
 def run(ctx) -> None:
-    for name, fn in (("H7", rule_H7), ("H1", rule_H1), ("H2", rule_H2), ("H3", rule_H3), ("H4", rule_H4), ("H5", rule_H5), ("H6", rule_H6), ("T2", codec.rule_T2), ("T2b", codec.rule_T2b)):
+    for name, fn in (("H8", rule_H8), ("H7", rule_H7), ("H1", rule_H1), ("H2", rule_H2), ("H3", rule_H3), ("H4", rule_H4), ("H5", rule_H5), ("H6", rule_H6), ("T2", codec.rule_T2), ("T2b", codec.rule_T2b)):
         ctx.rules_run.append(name)
         fn(ctx)
